@@ -1096,7 +1096,7 @@ def c11_check(pid, tier, replay_file=None):
     if len(skipped) > len(work) // 3:
         raise Machinery('too many configurations could not be hosted: ' + '; '.join(skipped[:5]))
     cov = {'states': res['distinct'], 'transitions': res['states'], 'exhaustive': True, 'model_depth': res['depth'],
-           'evaluations': len(results) + len(sresults), 'calls': sum(r.get('calls', 0) for r in results + sresults),
+           'evaluations': len(results) + len(sresults), 'distinct_nontrivial': len(results) + len(sresults) - len(skipped), 'calls': sum(r.get('calls', 0) for r in results + sresults),
            'context_buffer_cases': len(ctxcases), 'deviations_expressible': {d: v['invariant'] for d, v in devs.items()}, 'path_binding': BUF_PATH_WORKLOAD, 'skipped': skipped[:10],
            'rule': ('spec/Buffers.tla (pooled frame buffers shared by all connections; Recv/Hand/Release; UserStable, DecodedWhileOwned, NoClobberWithoutNoCopy) checked exhaustively for the intended copy rules; '
                     'every deviation of the catalogue violates an invariant (so the model can express the failure); each model path is bound to a workload in which user code keeps what it was handed '
